@@ -25,7 +25,7 @@ theorem finishRecording_active (ao : AliasOracle) (cfg : OpCfg) (s : St) (excFla
     (finishRecording ao cfg s excFlag tStart).log = s.log ++ [if keep then .save a.id else .abort a.id] ∧
     (finishRecording ao cfg s excFlag tStart).drawn = s.drawn + drawsUsed s.forced a.params ∧
     (finishRecording ao cfg s excFlag tStart).store =
-      (if keep && !cfg.saveFails then
+      (if keep && !cfg.saveFailsOn a.data then
         { id := a.id, data := a.data,
           md := postMeta ao cfg a.data excFlag (((match s.clock with | [] => 0 | t :: _ => t : Nat) : Int) - (tStart : Int)) }
           :: s.store
@@ -53,10 +53,10 @@ theorem finishRecording_active (ao : AliasOracle) (cfg : OpCfg) (s : St) (excFla
     cases hc : s.clock with
     | nil =>
       unfold saveRecording
-      by_cases hsv : cfg.saveFails = true <;> simp [hsv, addLog, hlog, hstore, hdrawn]
+      by_cases hsv : cfg.saveFailsOn a.data = true <;> simp [hsv, addLog, hlog, hstore, hdrawn]
     | cons t rest =>
       unfold saveRecording
-      by_cases hsv : cfg.saveFails = true <;> simp [hsv, addLog, hlog, hstore, hdrawn]
+      by_cases hsv : cfg.saveFailsOn a.data = true <;> simp [hsv, addLog, hlog, hstore, hdrawn]
 
 /-- `force_sample_recording` -/
 theorem doForce_forced (s : St) :
@@ -299,7 +299,7 @@ def clockAt (c : List Nat) (i : Nat) : Nat := (c[i]?).getD 0
 theorem runOperation_saved (ao : AliasOracle) (cfg : OpCfg) (s : St) (p : Prog) (a : Active)
     (hidle : s.Idle) (hen : s.enabled = true) (hsk : cfg.params.skipped = false)
     (hact : (atFinally cfg s p).active = some a)
-    (hkeep : keepDecision (atFinally cfg s p).forced cfg.params (headDraw s) = true) (hsv : cfg.saveFails = false) :
+    (hkeep : keepDecision (atFinally cfg s p).forced cfg.params (headDraw s) = true) (hsv : cfg.saveFailsOn a.data = false) :
     (runOperation ao cfg s p).1.store =
       { id := s.nextId, data := a.data,
         md := postMeta ao cfg a.data (excFlagOf (runOperation ao cfg s p).2)
